@@ -78,7 +78,12 @@ class C07(Prop):
             "spaces and long steps: physical dimensions 4..40 (d1*d2 in [1000, 1150] and 36..400 in turn), initial bond 1..4, ||H|| dt in "
             "(1/2, 1] times 1, 16, 64, 128, default mode (EXPM on medium sizes). Units / scales: Hamiltonian times 2^hexp, hexp in [-44, 24], "
             "time step divided by the same power of two, every fifth state rescaled by 2^-30 .. 2^16 (two-node exactness and conservation "
-            "runs; state deviations relative to max|psi0|). non-trivial = >= 2 nodes; distinct by content")
+            "runs; state deviations relative to max|psi0|). Symmetric states with exactly degenerate Schmidt spectra: GHZ / Bell-type states "
+            "sum_k c_k |k..k> (copy tensors, every bond d = 2..4, |c_k| in multiplets 1,1 / 1,1,1 / 1,1,.5 / 1,.5,.5 / 1,1,.5,.5 ..., random phases, "
+            "2..7 nodes, dense space <= 300) under Hermitian Hamiltonians that keep the degeneracy (diagonal in the product basis with any support; "
+            "or sums of single-site terms on the state rotated by random local unitaries), max_bond 1..d-1 with tolerances 0 / 1e-15 / -inf (the cap "
+            "binds, inside or at the edge of a multiplet), value / sum mode, renorm, class / builder, 1..3 steps: every bond within [1, max] after "
+            "every step. non-trivial = >= 2 nodes; distinct by content")
     clauses = [
         ("F", "trace2s is defined on every tree with unique ids and >= 2 nodes; the signed durations of a step sum to dt (C07_two_site_runs, C07_total_duration)"),
         ("F", "two nodes (any identifiers): the step consists of exactly two half-step two-site updates on the only edge and no backward site update "
@@ -181,6 +186,20 @@ class C07(Prop):
                           "ttno_shuffle": rep % 2 == 0, "mode": "expm", "nsteps": rng.choice([1, 2]), "nterms": rng.choice([1, 2, 3]),
                           "trunc": tr, "phys": [3] * len(par), "bond": rng.choice([3, 4, 5]) if len(par) <= 4 else 3,
                           "builder": rep % 2 == 1, "overcap": True})
+        # SYMMETRIC STATES with EXACTLY DEGENERATE Schmidt spectra ("all initial states and Hermitian Hamiltonians, all truncation
+        # settings"): GHZ / Bell-type states sum_k c_k |k..k> with |c_k| in multiplets (1,1 / 1,1,1 / 1,1,.5 / 1,.5,.5 / ...), every
+        # bond d = 2..4, under Hamiltonians that keep the degeneracy (diagonal in the product basis with any support, or sums of
+        # single-site terms on a state rotated by random local unitaries); max_bond 1..d-1 with tolerances that cut nothing
+        # themselves: the cap falls inside or at the edge of a multiplet; value / sum mode, renorm, class / builder in turn
+        for rep in range(ctx.scale(10, 200) * budget_scale):
+            f = S.gen_ghz_fields(rng, rep)
+            tr = {"max_bond": rng.randint(1, len(f["ghz"]) - 1), "rel_tol": rng.choice([0.0, 1e-15, float("-inf")]),
+                  "total_tol": rng.choice([0.0, 1e-15, float("-inf")]), "sum_trunc": rep % 3 == 0, "renorm": rep % 4 == 0}
+            c = {"kind": "tdvp2s", "sub": "trunc", "seed": rng.randrange(10 ** 9), "ttno_shuffle": rep % 2 == 0,
+                 "mode": "expm" if rep % 3 else "default", "nsteps": rng.choice([1, 2, 3]) if len(f["par"]) <= 5 else 1,
+                 "trunc": tr, "builder": rep % 4 == 3, "overcap": True, "degenerate": True}
+            c.update(f)
+            cases.append(c)
         # LARGE LOCAL SPACES and LONG STEPS ("reproduces exp(-iH dt) exactly on a two-node tree for any initial bond dimension"; the
         # time step is not restricted by the text): two-node trees with physical dimensions 4..40, alternately a large local
         # space (d1*d2 in [1000, 1150]) and a medium one (36..400), initial bond 1..4, ||H|| dt in (1/2, 1] times 1, 16, 64 or
@@ -236,6 +255,10 @@ class C07(Prop):
                 c["two-node-local-dim>=1000" if int(np.prod(x["phys"])) >= 1000 else "two-node-local-dim=36..400"] += 1
             if x.get("overcap"):
                 c["initial-bonds-above-max_bond"] += 1
+            if x.get("ghz"):
+                g, mb = x["ghz"], x["trunc"]["max_bond"]
+                c["ghz-type:" + x["hamkind"] + "-hamiltonian"] += 1
+                c["ghz-type:cap-inside-multiplet" if g[mb - 1] == g[mb] else "ghz-type:cap-between-multiplets"] += 1
             if x.get("builder"):
                 c["via-builder:" + x["sub"]] += 1
             if x.get("trunc"):
